@@ -82,7 +82,7 @@ def _alarm(signum, frame):
 def quiet_worker():
     warnings.simplefilter('ignore')
     # coverage (used by pedal's 'coverage' tracer style) writes a data file in the cwd: give each worker its own
-    covdir = os.path.join(HERE, '.work', 'cov')
+    covdir = os.path.join(HERE, '.work', 'cov_%s' % os.environ.get('VERIF_RUN_ID', '0'))
     os.makedirs(covdir, exist_ok=True)
     os.environ['COVERAGE_FILE'] = os.path.join(covdir, 'cov.%d' % os.getpid())
     import atexit
@@ -441,7 +441,7 @@ def main(argv=None):
                 pool.terminate()
                 return 2
     import shutil
-    shutil.rmtree(os.path.join(HERE, '.work', 'cov'), ignore_errors=True)
+    shutil.rmtree(os.path.join(HERE, '.work', 'cov_%s' % os.environ['VERIF_RUN_ID']), ignore_errors=True)
     import glob
     for stale in glob.glob(os.path.join(HERE, '.work', '*_%s.json*' % os.environ['VERIF_RUN_ID'])):
         try:
